@@ -22,7 +22,7 @@ func (c11) Size(tier string) Size {
 	if tier == "thorough" {
 		return Size{Batches: 17, Cases: 2500} // batch 16 runs in a binary built with go1.26.8 when available
 	}
-	return Size{Batches: 4, Cases: 400}
+	return Size{Batches: 8, Cases: 500}
 }
 
 const c11shared = 150 // specs marshaled by EVERY child process (digests compared by the parent)
